@@ -18,6 +18,7 @@ func init() {
 			"(prefix-entry) both writers write a header on the branch taken for a prefix that ends in '/'. (format-dispatch) every name SupportedFormats lists is a case of WriteArchive's switch. (filter-evaluated-per-entry) the path filter is evaluated on each entry's own path: a helper around MatchesPathFilter answers 'not requested' only after the matcher ran for that entry (a wildcard can stand for a directory component, so a rejected directory decides nothing about its contents). (go-mode-bits) no Unix file-type bits are converted to fs.FileMode. (walk-error-not-end-of-walk) no error branch in plumbing/object or the archive package replaces the error by io.EOF, at which the writers stop and report success. (every-path-listed) the writers give the tree walker no seen set, so a tree object that occurs at several paths is listed at each. " +
 			"(zip-unix-attrs-only-for-exec-and-links) WriteZipArchive sets Unix attributes only in the cases for executables and symbolic links and does not call ApplyUmask (found and fixed, a9f0db8: tar's umask was applied, files unpacked as 0664/0775; git gives plain files none and executables 0755). " +
 			"(every-pathspec-must-match) both writers keep a per-filter record of what selected an entry and turn an unmatched filter into an error (found and fixed, 1af8ede: only 'nothing matched at all' was refused; git archive refuses any unmatched pathspec). " +
+			"(archive-time-is-committer-date) the archive package reads no commit's Author signature and ResolveTreeish takes the time from Committer.When. " +
 			"Found and fixed earlier: the zip writer skipped directories, submodules and the prefix directory. The last two defects were found by comparing archives of generated trees with git archive's (discovery only; tar entries agreed throughout). Not decided: other header fields (times, sizes), contents, ordering, the pathspec language.",
 		Assumptions: []string{"archive/tar and archive/zip write what their headers say"},
 		Run:         runC50,
@@ -35,6 +36,7 @@ func runC50(c *Ctx) {
 	}
 	info := pk.TypesInfo
 	checkZipAttrsAndPathspecs(c, "zip-unix-attrs-only-for-exec-and-links", "every-pathspec-must-match")
+	checkArchiveTimeIsCommitterDate(c, "archive-time-is-committer-date")
 	fmPkg := p.Pkg("plumbing/filemode")
 	if fmPkg == nil {
 		c.Unresolved(r1, "package plumbing/filemode", 0, "not loaded")
